@@ -31,13 +31,22 @@ let matches (endk : string) (m : string) (i : string) : bool =
     | "err:eof" -> (match endk with "other" -> i = "err:injected" | _ -> i = "err:eof")
     | "err:prefixtrunc" -> i = "err:eof" || i = "err:ueof" || i = "err:injected" || i = "err:op"
     | "err:trunc" -> i = "err:ueof" || i = "err:injected" || i = "err:op"
+                     (* a truncated body is decoded as far as it goes: it may hold something the decoder rejects (a value
+                        outside the modelled zone, e.g. a container used as a map key) before the bytes run out; both are
+                        fatal and neither is io.EOF *)
+                     || i = "err:decode"
     | "err:decode" -> i = "err:decode"
     | _ -> false
 
 (* Go maps: a repeated key keeps the last value; container keys are unhashable (outside the modelled zone) *)
 let rec has_container_key (v : mval) : bool =
   match v with
-  | VMap l -> List.exists (fun (k, x) -> (match k with VArr _ | VMap _ -> true | _ -> false) || has_container_key k || has_container_key x) l
+  | VMap l ->
+      (* a repeated key is outside the modelled zone too: go-codec decodes the second value INTO the first (same type: replaced;
+         another type: decode error; an empty byte slice: stays empty) *)
+      let keys = List.map (fun (k, _) -> Values.print (match k with VBin s -> VStr s | x -> x)) l in
+      List.length (List.sort_uniq compare keys) <> List.length keys
+      || List.exists (fun (k, x) -> (match k with VArr _ | VMap _ -> true | _ -> false) || has_container_key k || has_container_key x) l
   | VArr l -> List.exists has_container_key l
   | _ -> false
 
@@ -111,7 +120,12 @@ let run_case (toks : string list) (obs : (string, string list) Hashtbl.t) : stri
            (* allocation probe: never asked the connection for more than a constant plus the frame limit at once *)
            let maxask = try int_of_string (kv "maxask" ok) with _ -> 0 in
            let maxv = ZZ.to_int (z_of_coq max) in
-           if maxask > 65536 + maxv then Printf.sprintf "PROPFAIL %s sig=buffer-bound single read of %d bytes requested with max frame %d" id maxask maxv else
+           let alloc = try int_of_string (kv "alloc" ok) with _ -> 0 in
+           let slen = String.length (kv "stream" k) / 2 in
+           (* buffering bounded by what arrived: a hostile frame must not make the decoder allocate far more than the stream holds *)
+           if alloc > 8 * 1048576 + 64 * slen then
+             Printf.sprintf "PROPFAIL %s sig=allocation-bound decoding a stream of %d bytes allocated %d bytes (limit 8 MiB + 64 x stream length)" id slen alloc
+           else if maxask > 65536 + maxv then Printf.sprintf "PROPFAIL %s sig=buffer-bound single read of %d bytes requested with max frame %d" id maxask maxv else
            (* framing-level predicate, from the property text alone: a frame whose prefix is a valid length and whose
               declared bytes are all present is consumed exactly, whatever its content and whatever NextFrame returned *)
            let rec frame_ends (s : n list) (pos : int) (acc : int list) (fuel : int) : int list =
